@@ -13,10 +13,36 @@ import (
 
 	"github.com/bitcoin-sv/block-headers-service/domains"
 	"github.com/bitcoin-sv/block-headers-service/internal/chaincfg/chainhash"
+	"github.com/bitcoin-sv/block-headers-service/notification"
 	"github.com/bitcoin-sv/block-headers-service/repository"
 )
 
 func init() { register("C15", runC15) }
+
+// evCounter is a notification channel that counts ADD events per header hash.
+type evCounter struct {
+	mu sync.Mutex
+	n  map[string]int
+}
+
+func (e *evCounter) Notify(ev notification.Event) {
+	if he, ok := ev.(*domains.HeaderEvent); ok && he.Header != nil && he.Operation == domains.EventHeaderAdded {
+		e.mu.Lock()
+		e.n[he.Header.Hash]++
+		e.mu.Unlock()
+	}
+}
+func (e *evCounter) reset() { e.mu.Lock(); e.n = map[string]int{}; e.mu.Unlock() }
+func (e *evCounter) total() int {
+	e.mu.Lock()
+	defer e.mu.Unlock()
+	t := 0
+	for _, v := range e.n {
+		t += v
+	}
+	return t
+}
+func (e *evCounter) get(h string) int { e.mu.Lock(); defer e.mu.Unlock(); return e.n[h] }
 
 // ---------------------------------------------------------------------------------------------
 // A scheduler at the repository.Headers boundary.  Goroutines registered with the scheduler block at
@@ -203,6 +229,8 @@ func runC15(c *Ctx) error {
 		return err
 	}
 	defer s.Close()
+	evc := &evCounter{n: map[string]int{}}
+	s.Services.Notifier.AddChannel(evc)
 	do := func(setup *History, conc []Sub, nreads int, prefs []int, tag string) error {
 		all := &History{Forbidden: setup.Forbidden, Subs: append(append([]Sub{}, setup.Subs...), conc...)}
 		m, err := Materialize(all)
@@ -223,6 +251,8 @@ func runC15(c *Ctx) error {
 		sc.mu.Lock()
 		sc.enabled = true
 		sc.mu.Unlock()
+		time.Sleep(2 * time.Millisecond) // let the setup's notification goroutines finish
+		evc.reset()
 		outs := make([]string, len(conc))
 		tips := []int{}
 		var wg sync.WaitGroup
@@ -262,6 +292,27 @@ func runC15(c *Ctx) error {
 		if err != nil {
 			return err
 		}
+		// ADD events per concurrently submitted header (deliveries run in their own goroutines: wait briefly)
+		stored := 0
+		for _, o := range outs {
+			if strings.HasPrefix(o, "S") {
+				stored++
+			}
+		}
+		for w := 0; w < 50 && evc.total() < stored; w++ {
+			time.Sleep(time.Millisecond)
+		}
+		time.Sleep(time.Millisecond)
+		evs := []string{}
+		seenID := map[int]bool{}
+		for _, cs := range conc {
+			if seenID[cs.ID] {
+				continue
+			}
+			seenID[cs.ID] = true
+			hv := m.Hash[cs.ID]
+			evs = append(evs, fmt.Sprintf("%d=%d", cs.ID, evc.get(hv.String())))
+		}
 		h := &History{Forbidden: setup.Forbidden, Subs: setup.Subs}
 		for i, cs := range conc {
 			h.X = append(h.X, fmt.Sprintf("t%d:%s", i+1, cs.String()))
@@ -275,7 +326,7 @@ func runC15(c *Ctx) error {
 		for i, t := range tips {
 			ts[i] = strconv.Itoa(t)
 		}
-		c.Case(h.Line(), strings.Join(outs, ",")+"|"+strings.Join(ts, ",")+"|"+RowsString(rows, m))
+		c.Case(h.Line(), strings.Join(outs, ",")+"|"+strings.Join(ts, ",")+"|"+RowsString(rows, m)+"|"+strings.Join(evs, ","))
 		c.Count("gen:" + tag)
 		c.Count(fmt.Sprintf("submitters:%d", len(conc)))
 		inter := false
@@ -368,6 +419,13 @@ func runC15(c *Ctx) error {
 						if err := do(st, conc, 3, pat, "systematic"); err != nil {
 							return err
 						}
+						if pa == pb && wb == bitsW2 {
+							// the SAME header submitted by two peers at once: stored once, answered duplicate once, one event
+							same := []Sub{mk(10, pa, bitsW2), mk(10, pa, bitsW2)}
+							if err := do(st, same, 2, pat, "same-header"); err != nil {
+								return err
+							}
+						}
 					}
 				}
 			}
@@ -388,6 +446,9 @@ func runC15(c *Ctx) error {
 				bits = bitsW4
 			}
 			conc = append(conc, mk(100+j, ids[c.Rng.Intn(len(ids))], bits))
+		}
+		if c.Rng.Intn(5) == 0 {
+			conc[len(conc)-1] = conc[0] // the same header from two submitters
 		}
 		prefs := make([]int, 2+c.Rng.Intn(10))
 		for j := range prefs {
